@@ -4,14 +4,15 @@ from common import VERIF
 
 READY = True
 
-STAGE = "3-partial: vm_refines_eval_partial proved for text / emit / set (incl. unpacking) / set-block / filter-block / if-elif-else / with / for-else with unpacking targets, loop filter, break and continue over expressions with constant folding, short-circuit and/or, if-expressions, filters, tests, attribute/item access, list/map literals, chained comparisons (every expression form except calls), and vm_refines_eval_discard for the same fragment run with a discarding output (top level of a child template / imported module followed by the layout / importer; captures under discard still capture); stage 2 (model code generator incl. macros, call blocks, calls and the find_macro_closure analysis == real instruction stream on every generated program; model VM == exec == engine on macro-free programs; extended model VM with closures, prepare_args and the live loop object with its adjacent-item look-ahead == exec == engine on all programs); macros / call blocks / calls not yet proved"
+EXCLUDED = "parameter defaults that contain a call or read a parameter (the engine binds parameters back to front, the reference semantics front to back), macros used as values ({{ m }}, a macro passed as an argument: macro names are only called or tested with is defined / is undefined), an explicit caller= keyword argument, calls of names that are not declared macros, reads in a macro body that find_macro_closure does not enclose"
+STAGE = ("3: vm_refines_eval proved for text / emit / set (incl. unpacking) / set-block / filter-block / if-elif-else / with / for-else with unpacking targets, loop filter, break and continue, macro declarations at any depth (closures: Enclose / GetClosure / BuildMacro, write-through closure cells against by-reference scoping) with parameter defaults (evaluated at call time in the macro's scope), macro calls with positional and keyword arguments (prepare_args, Kwargs bundle, fresh callee context, captured output), call blocks and caller (the hidden keyword argument, caller(args), call blocks with parameters and defaults) over expressions with constant folding, short-circuit and/or, if-expressions, filters, tests, attribute/item access, list/map literals, chained comparisons, and vm_refines_eval_discard for the same fragment run with a discarding output (top level of a child template / imported module followed by the layout / importer; captures under discard still capture; macros declared there are called from the tail); stage 2 (model code generator incl. macros, call blocks, calls and the find_macro_closure analysis == real instruction stream on every generated program; model VM with closures and calls == exec == engine on all programs it runs; extended model VM with the live loop object with its adjacent-item look-ahead == exec == engine on all programs); still outside the theorem: " + EXCLUDED)
 
 META = {
     "technique": "Lean 4: reference interpreter of the core fragment with kernel-checked scoping / loop-variable / for-else laws; model of the code generator (back-patched absolute jumps) and of the VM with a kernel-checked refinement theorem for a fragment; ties: typed random programs -> real parser (AST dumped and compared) -> (a) Template::render vs. the interpreter (oracle, delta-debugging shrinker), (b) model code generator vs. the real instruction stream instruction by instruction, (c) model VM vs. engine and vs. the interpreter; tables regenerated from source",
     "category": "proof",
-    "text": "MJ/Model/Eval.lean is the documented semantics of the core fragment (expressions, if/elif/else, for/else/filter/unpacking/loop, set, set-block, with, filter-block, macros with defaults and keyword arguments, call blocks, break/continue) as a structurally recursive interpreter that shares nothing with the compiler and VM. Kernel-checked: assignments inside for/with/macro/call-block bodies leave every enclosing scope unchanged, assignments at template level and in if-branches persist, the loop object of iteration i is <i, len, xs[i-1]?, xs[i+1]?> for every list, the else branch runs iff the filtered sequence is empty; constant folding is sound; the back-patching code generator model equals a structured generator with resolved targets; vm_refines_eval_partial: the model VM on the generated code renders what the interpreter renders, for templates of text / emit / set (with unpacking) / set-block / filter-block / if / with / for-else with loop filter, break and continue over expressions with short-circuit and/or, if-expressions, filters, tests, attribute and item access, list and map literals. The engine is tied to the models by rendering generated programs with the real engine (real parser in the loop), by comparing the real instruction streams with the model generator's, and by running the model VM.",
+    "text": "MJ/Model/Eval.lean is the documented semantics of the core fragment (expressions, if/elif/else, for/else/filter/unpacking/loop, set, set-block, with, filter-block, macros with defaults and keyword arguments, call blocks, break/continue) as a structurally recursive interpreter that shares nothing with the compiler and VM. Kernel-checked: assignments inside for/with/macro/call-block bodies leave every enclosing scope unchanged, assignments at template level and in if-branches persist, the loop object of iteration i is <i, len, xs[i-1]?, xs[i+1]?> for every list, the else branch runs iff the filtered sequence is empty; constant folding is sound; the back-patching code generator model equals a structured generator with resolved targets; vm_refines_eval: the model VM on the generated code renders what the interpreter renders, for templates of text / emit / set (with unpacking) / set-block / filter-block / if / with / for-else with loop filter, break and continue, macro declarations with closures and parameter defaults at any depth, macro calls with positional and keyword arguments, call blocks and caller, over expressions with short-circuit and/or, if-expressions, filters, tests, attribute and item access, list and map literals (outside: " + EXCLUDED + "). The engine is tied to the models by rendering generated programs with the real engine (real parser in the loop), by comparing the real instruction streams with the model generator's, and by running the model VM. Argument binding: MJ.Eval.bindArgs / slotOf are Macro::prepare_args and the default rule as functions (parameters, positional values, keyword values -> value of every parameter | TooManyArguments); kernel-checked: an explicitly passed value (none included) is bound as it is, the default is used and evaluated iff the parameter is bound to undefined, one more positional value = the same value by keyword for the next free parameter, every keyword is consumed by a parameter that is not filled by position or is an error, the error cases exactly, and the model VM's prepareArgs is this binder; the engine's binder is compared with it on an exhaustive box (incl. splats and calls from Rust).",
     "design_ref": "DESIGN.md §3 C03",
-    "level_note": "Stage reached: " + STAGE + ". Trusted: Lean kernel; the reading of syntax.rs in MJ/Model/Eval.lean; hand transcription of codegen.rs / vm/mod.rs in MJ/Model/{Compile,Vm}.lean (validated on every generated macro-free program: instruction streams identical, VM results identical); harness unparse + serde AST dump (checked by AST equality on every case). Not proved: macros, call blocks and calls are modelled in Compile (instruction streams compared) and in the extended VM model VmM (results compared) but are not part of the refinement theorem (a theorem for closure-free macros called at statement level would cover about 5% more of the generated programs — measured —, the general case needs the correctness of the shared write-through closures against by-reference scoping). The entry forms other than `render` are run against `renderAfter` (run P discarding its output, then the tail in the same top-level scope); vm_refines_eval_discard proves the model VM's discarding run for the proved fragment, the multi-template machinery itself (LoadBlocks, Include, ExportLocals, module objects) is validated by the differential runs only.",
+    "level_note": "Stage reached: " + STAGE + ". Trusted: Lean kernel; the reading of syntax.rs in MJ/Model/Eval.lean; hand transcription of codegen.rs / vm/mod.rs in MJ/Model/{Compile,Vm}.lean (validated on every generated program: instruction streams identical, VM results identical); harness unparse + serde AST dump (checked by AST equality on every case). Not proved: " + EXCLUDED + " are modelled in Eval / Compile / both model VMs and compared on every generated program (instruction streams, results) but are outside the fragment of the refinement theorem (wfBlock in MJ/Proofs/Scoping.lean is the decidable description; the share of generated programs inside it is reported as in_theorem_percentage, the reasons for the rest in the proved_fragment histogram). The theorem assumes a render context of plain data (undefined, none, booleans, integers, strings, lists, maps); kernel-checked with it: the values that flow through expressions of the fragment stay plain data, so a positional argument is never taken for the keyword bundle. The entry forms other than `render` are run against `renderAfter` (run P discarding its output, then the tail in the same top-level scope); vm_refines_eval_discard proves the model VM's discarding run for the proved fragment, the multi-template machinery itself (LoadBlocks, Include, ExportLocals, module objects) is validated by the differential runs only.",
 }
 
 STMT_HEADS = {"text", "emit", "ifs", "for", "set", "setb", "with", "fblk", "macro", "callb", "break", "continue"}
@@ -218,10 +219,18 @@ def run(r):
               "when it is distinct and contains at least one control construct; constant-foldable constructs (comparison chains of 3-4 small operands incl. in / not in links, arithmetic, concat, and/or/not, subscripts / attributes / filters on literal containers, if-expressions, filters / tests on literals) are emitted in three forms — operands as variables, as literals, mixed — as {{ e }}, if condition and loop filter, and all three must render the documented result; every generated program is also run through one of 13 other "
               "entry forms (top level of a child template of a layout that prints its assignments / calls its macros / renders an overridden block; "
               "module for from-import and import-as; include; render_captured + render_block / call_macro; Expression API; template_from_str; render_captured_to an io::Write; loader-backed environment; custom delimiters; custom formatter; debug off) against the "
-              "reference semantics 'run P discarding its output, then the tail in the same top-level scope'")
+              "reference semantics 'run P discarding its output, then the tail in the same top-level scope'; "
+              "argument binding (Macro::prepare_args) on an exhaustive box: 0-2 parameters with 0-n defaults (marker value / expression that fails when evaluated) x "
+              "every slot not passed | positional | keyword | both x values none, undefined, false, 0, '', [], 5 (literals = static keyword arguments, or variables) x "
+              "unknown keyword, hidden caller keyword (macro that refers to caller or not), one positional too many x macro call / caller() of a call block, "
+              "observed through 'is defined', 'is none', {{ p }}, {{ [p] }} and error-or-not; quick: literal/variable and macro/caller alternate over the box, thorough: full product; "
+              "cases with keyword arguments again with *[..] / **{..} splats and (macros) from Rust through State::call_macro with a Kwargs value; "
+              "the random generator passes foldable values (none, undefined, false, 0, '', []) in one of five argument slots, positional or keyword, also to caller(), "
+              "and observes parameters with is none / is defined")
     r.assumptions = [
         "programs deeper than 6 / larger than 40 nodes behave compositionally like the sampled ones (proved for the reference interpreter's laws, sampled for the engine)",
-        "macro defaults do not refer to sibling parameters (generator restriction); recursion is bounded by a literal counter; macro values are stored under other names and passed as arguments, but not put into lists/maps or printed",
+        "argument-binding box: at most two parameters; splats are dict / list literals (not map values of the render context); calls from Rust go through State::call_macro",
+        "macro defaults of generated programs do not refer to sibling parameters (the engine binds parameters back to front — recorded finding, probed by the sb cases); recursion is bounded by a literal counter; macro values are stored under other names and passed as arguments, but not put into lists/maps or printed",
         "context values are ints (incl. the i64 limits), strings, safe strings, bools, none, lists, pairs and string-keyed maps: no floats, bytes, custom objects or one-shot iterators (outside the value model of the reference semantics)",
         "entry forms: child template + layout, from-import, import-as, include, render_captured + render_block / call_macro, Expression API, template_from_str, render_captured_to, loader, custom delimiters, custom formatter, debug off; default undefined behaviour, no auto-escaping, default build (no preserve_order)",
         "results outside the fragment (list + list, list * int, non-string map keys, bool subscripts) are skipped, not judged",
@@ -255,6 +264,15 @@ def run(r):
         r.broken.append(f"harness c03 exited {rc}: {err[-300:]}")
         return
     lines = [l.split("\t") for l in out.splitlines()]
+    # ---- the argument-binding box (Macro::prepare_args): exhaustive, see harness/src/bin/c03_args.inc
+    rc, out, err = r.harness(exe, ["argbind", r.tier])
+    if rc != 0:
+        r.broken.append(f"harness c03 argbind exited {rc}: {err[-300:]}")
+        return
+    ablines = [l.split("\t") for l in out.splitlines()]
+    r.extra["argbind_box_cases"] = sum(1 for l in ablines if not l[2].startswith("(wrap "))
+    r.extra["argbind_splat_and_rust_call_cases"] = sum(1 for l in ablines if l[2].startswith("(wrap "))
+    lines += ablines
     model = r.driver("drive_c03", "".join("\t".join(l[:3]) + "\n" for l in lines))
     if model is None or len(model) != len(lines):
         r.broken.append("model driver output does not line up with the harness cases")
@@ -269,25 +287,33 @@ def run(r):
     conds = constconds = 0
     skipped = 0
     nfail = 0
-    ncode = nvm = 0
+    ncode = nvm = nvmfuel = 0
     nfrag = nfragw = nbase = nwrap = 0
+    share = collections.defaultdict(lambda: [0, 0])      # stream -> [in the theorem, all]
     nlit = 0
     nvmm = 0
     for cid, ctx, prog, impl, mres, src, stats, realcode, modelcode, vmres, frag, vmmres in cases:
         is_wrap = prog.startswith("(wrap ")
+        is_sibling = cid.startswith("sb")
         if frag == "frag3" and modelcode != "oof":
             # syntactically in the fragment and compiled by the model generator (constant folding
-            # stayed inside the value model): the hypotheses of vm_refines_eval_partial (stand-alone
+            # stayed inside the value model): the hypotheses of vm_refines_eval (stand-alone
             # programs, entry forms that keep the output) / vm_refines_eval_discard (child template,
             # module, render_block / call_macro after the render) hold
             if is_wrap:
                 nfragw += 1
-                r.hist["proved_fragment"]["entry form: in (vm_refines_eval_discard / _partial applies)"] += 1
+                r.hist["proved_fragment"]["entry form: in (vm_refines_eval_discard / vm_refines_eval applies)"] += 1
             else:
                 nfrag += 1
-                r.hist["proved_fragment"]["in (vm_refines_eval_partial applies)"] += 1
+                r.hist["proved_fragment"]["in (vm_refines_eval applies)"] += 1
         else:
-            r.hist["proved_fragment"]["entry form: outside (macros, call blocks, calls)" if is_wrap else "outside (macros, call blocks, calls)"] += 1
+            why = frag[2:] if frag.startswith("-:") else "not compiled by the model generator"
+            r.hist["proved_fragment"][("entry form: " if is_wrap else "") + "outside (" + why + ")"] += 1
+        stream = "probe: defaults that read an earlier parameter (known deviation)" if is_sibling else \
+                 ("argument-binding box" + (" through splats / from Rust" if is_wrap else "")) if cid.startswith("ab") else \
+                 ("entry-form cases" if is_wrap else ("generated programs" if cid.startswith("g") else "corpus / hand-written programs"))
+        share[stream][1] += 1
+        share[stream][0] += 1 if (frag == "frag3" and modelcode != "oof") else 0
         nbase += 0 if is_wrap else 1
         nwrap += 1 if is_wrap else 0
         # ---- stage 2 streams: model code generator vs real instruction stream, model VM vs engine / exec
@@ -300,12 +326,16 @@ def run(r):
                     k = next((k for k, (x, y) in enumerate(zip(ra, rb)) if x != y), min(len(ra), len(rb)))
                     r.model_disagreement(f"codegen\t{ctx}\t{prog}", f"instr {k}: {ra[k] if k < len(ra) else 'END'} [source: {src}]",
                                          f"instr {k}: {rb[k] if k < len(rb) else 'END'}")
-            if vmres != "-" and mres != "err:OUT-OF-FRAGMENT":
+            if vmres == "err:FUEL" or (vmres != "-" and mres == "err:FUEL"):
+                nvmfuel += 1
+            elif vmres != "-" and mres != "err:OUT-OF-FRAGMENT":
                 nvm += 1
                 cls = lambda x: x if x.startswith("ok:") else "err"
                 if cls(vmres) != cls(impl):
                     r.model_disagreement(f"vm\t{ctx}\t{prog}", show(impl) + f" [source: {src}]", show(vmres))
-                if cls(vmres) != cls(mres):
+                # (`sb…`: the probe of the known deviation — defaults that read an earlier parameter; the model VM
+                # follows the engine there, the reference semantics follows Jinja, and the program is outside the fragment)
+                if cls(vmres) != cls(mres) and not (is_sibling and frag != "frag3"):
                     r.broken.append(f"model VM on model code disagrees with exec (counterexample to vm_refines_eval): {src} -> vm {show(vmres)}, exec {show(mres)}")
             # the extended model VM (macros, calls, live loop object): all compiled programs
             if vmmres != "-" and mres not in ("err:OUT-OF-FRAGMENT", "err:FUEL") and vmmres != "err:FUEL":
@@ -313,7 +343,7 @@ def run(r):
                 cls = lambda x: x if x.startswith("ok:") else "err"
                 if cls(vmmres) != cls(impl):
                     r.model_disagreement(f"vmM\t{ctx}\t{prog}", show(impl) + f" [source: {src}]", show(vmmres))
-                if cls(vmmres) != cls(mres):
+                if cls(vmmres) != cls(mres) and not (is_sibling and frag != "frag3"):
                     r.broken.append(f"extended model VM on model code disagrees with exec: {src} -> vmM {show(vmmres)}, exec {show(mres)}")
         r.hist["codegen_fragment"]["in" if modelcode != "oof" else "outside (method calls, filter kwargs, ...)"] += 1
         st = dict(kv.split("=", 1) for kv in stats.split(";") if "=" in kv)
@@ -359,6 +389,10 @@ def run(r):
         elif verdict == "broken":
             if len(r.broken) < 5:
                 r.broken.append(f"{cid}: {detail} [source: {src}]")
+        elif verdict == "fail" and is_sibling:
+            # the engine binds parameters back to front: a default that reads an earlier parameter sees the
+            # variable of that name outside the macro (KNOWN_FINDINGS.jsonl)
+            r.oracle_failure(f"{ctx}\t{prog}", detail + f" [source: {src}] (found as {cid})", "macro-default-reads-earlier-parameter")
         elif verdict == "fail":
             nfail += 1
             if nfail <= 6:      # shrink the first few, they usually share a site
@@ -370,10 +404,11 @@ def run(r):
             r.sample({"source": src, "ctx": ctx, "engine": show(impl), "spec": show(mres)})
     r.extra["programs_in_proved_fragment"] = nfrag
     r.extra["entry_form_cases_in_proved_fragment"] = nfragw
-    r.extra["in_theorem_percentage"] = {"stand-alone programs": round(100.0 * nfrag / max(nbase, 1), 1),
-                                        "entry-form cases": round(100.0 * nfragw / max(nwrap, 1), 1)}
+    r.extra["in_theorem_percentage"] = {k: round(100.0 * a / max(b, 1), 1) for k, (a, b) in sorted(share.items())}
+    r.extra["in_theorem_counts"] = {k: f"{a} of {b}" for k, (a, b) in sorted(share.items())}
     r.extra["codegen_streams_compared"] = ncode
     r.extra["vm_runs_compared"] = nvm
+    r.extra["vm_runs_out_of_fuel_not_compared"] = nvmfuel
     r.extra["vmM_runs_compared"] = nvmm
     r.extra["conditions_generated"] = conds
     r.extra["conditions_constant"] = constconds
